@@ -228,7 +228,7 @@ theorem parseExp_render (exp : Int) :
     congr 1; omega
 
 /-- Every numeric cell of the reference writer is read back as exactly the number written. -/
-theorem parseNum_renderCell (c : Cell) (d : Dec) (hwf : ∀ n m e, c = .sci n m e → m < 1000000)
+theorem parseNum_renderCell (c : Cell) (d : Dec) (hwf : ∀ n k m e, c = .sci n k m e → m < 10 ^ (k + 1))
     (hd : cellDec c = some d) : parseNum (renderCell c) = some d := by
   cases c with
   | label s => simp [cellDec] at hd
@@ -245,23 +245,21 @@ theorem parseNum_renderCell (c : Cell) (d : Dec) (hwf : ∀ n m e, c = .sci n m 
       have := parseNum_intShape false (natDigits i.toNat) (natDigits_allDig _) (natDigits_ne_nil _)
       simp only [signStr, Bool.false_eq_true, if_false, List.nil_append, valDigits_natDigits] at this
       rw [this]; congr 2; omega
-  | sci neg mant exp =>
-    have hm : mant < 1000000 := hwf _ _ _ rfl
+  | sci neg k mant exp =>
+    have hm : mant < 10 ^ (k + 1) := hwf _ _ _ _ rfl
     simp only [cellDec, Option.some.injEq] at hd
     subst hd
     simp only [renderCell]
-    have h := parseNum_shape neg (padDigits 1 (mant / 100000)) (padDigits 5 mant)
+    have h := parseNum_shape neg (padDigits 1 (mant / 10 ^ k)) (padDigits k mant)
       ('E' :: (if exp < 0 then '-' else '+') :: expDigits exp.natAbs) exp
-      (padDigits_allDig _ _) (by intro h; have := padDigits_length 1 (mant / 100000); rw [h] at this; cases this)
+      (padDigits_allDig _ _) (by intro h; have := padDigits_length 1 (mant / 10 ^ k); rw [h] at this; cases this)
       (padDigits_allDig _ _) (stops_cons (by decide)) (parseExp_render exp)
-    have hv : valDigits (padDigits 1 (mant / 100000) ++ padDigits 5 mant) = mant := by
-      have := padDigits_add 1 5 mant
-      simp only [show (10:Nat) ^ 5 = 100000 by decide] at this
-      rw [← this, valDigits_padDigits]
-      exact Nat.mod_eq_of_lt (by simpa using hm)
+    have hv : valDigits (padDigits 1 (mant / 10 ^ k) ++ padDigits k mant) = mant := by
+      rw [← padDigits_add 1 k mant, valDigits_padDigits, Nat.add_comm 1 k]
+      exact Nat.mod_eq_of_lt hm
     rw [hv, padDigits_length] at h
     simp only [List.append_assoc] at h ⊢
-    rw [h]; rfl
+    rw [h]
   | fix neg ip k fp =>
     simp only [cellDec, Option.some.injEq] at hd
     subst hd
